@@ -283,13 +283,27 @@ def main():
             if foreign:
                 m2 = conforming(mname, v)
                 try:
-                    m2.add(Segment(foreign, version=v))
+                    fs = Segment(foreign, version=v)
+                    m2.add(fs)
                     rep2 = report(m2)
                     if rep2.is_valid:
                         R.fail('C04:foreign-accepted:%s:%s:%s' % (v, mname, foreign), 'C04:foreign-child-accepted',
                                'v%s %s with a foreign %s validates' % (v, mname, foreign))
                     else:
                         R.ok((v, mname, 'foreign', foreign))
+                    # history: the foreign child is removed again - the message is the conforming one once more and the
+                    # verdict must follow the children actually present, not what was once indexed (seed C04_c)
+                    m2.children.remove(fs)
+                    rep3 = report(m2)
+                    base = report(conforming(mname, v))
+                    stale = [str(e) for e in rep3.errors if 'Invalid children' in str(e)]
+                    if m2.to_er7() == conforming(mname, v).to_er7() and (rep3.is_valid != base.is_valid or
+                                                                        len(rep3.errors) != len(base.errors) or stale):
+                        R.fail('C04:removed-foreign-still-reported:%s:%s:%s' % (v, mname, foreign), 'C04:removed-child-still-reported',
+                               'v%s %s: %s added then removed (encoding back to the conforming message): errors %s' %
+                               (v, mname, foreign, [str(e) for e in rep3.errors[:3]]))
+                    else:
+                        R.ok((v, mname, 'foreign-removed', foreign))
                 except Exception:
                     pass
             # an emptied required group (children deleted, group still attached)
